@@ -116,6 +116,15 @@ def case(spec, ctx):
             if not ok:
                 ctx.fail("value:covariance", f"P+[{st_[w[0]]!r},{st_[w[1]]!r}] got {w[2]!r} ref {w[3]!r} (sensor {key!r}, m={msize})", spec)
 
+        # results are values, not views: feed the resulting covariance back in and look at the result again
+        keep = (np.array(out.state.data, float).copy(), np.array(out.covariance.data, float).copy())
+        with ctx.formak("sensor_model:chained", spec):
+            again = f.sensor_model(state, out.covariance, sensor_key=key, sensor_reading=f.make_reading(key, **z))
+        if not (np.array_equal(keep[0], out.state.data) and np.array_equal(keep[1], out.covariance.data)):
+            ctx.fail("inputs-modified:chained", "a previous result passed back as input was modified by sensor_model", spec)
+        if again.covariance is not out.covariance and np.shares_memory(again.covariance.data, out.covariance.data):
+            ctx.fail("inputs-modified:chained", "result shares memory with its input although an update took place", spec)
+
         # consequences
         nP = max(1e-300, float(np.max(np.abs(np.array(P)))))
         if np.max(np.abs(Pp - Pp.T)) > 1e-9 * nP:
@@ -128,6 +137,10 @@ def case(spec, ctx):
             out0 = f.sensor_model(state, cov, sensor_key=key, sensor_reading=pred)
         if not np.array_equal(np.asarray(out0.state.data), snap[0]):
             ctx.fail("zero-innovation-moves-state", f"{np.asarray(out0.state.data).ravel()} vs {snap[0].ravel()}", spec)
+        # ... but the covariance is still corrected: P - K H P does not depend on the reading
+        ok, w = oracle.mat_close(np.asarray(out0.covariance.data, float), ref["P"], ref["P_scale"], floor=scale)
+        if not ok:
+            ctx.fail("zero-innovation-covariance", f"reading equal to the prediction: P+[{st_[w[0]]!r},{st_[w[1]]!r}] got {w[2]!r} ref {w[3]!r}", spec)
 
         noises = [m["sensor_noises"][key][r] for r in rd]
         if msize >= 2 and len(set(noises)) == len(noises) and msize != len(st_):
